@@ -80,7 +80,7 @@ T = {
  "C18": ("runtime monitor: cursor model (pos, n) shadowing md.open handles over operation sequences, two handles",
          "exploration",
          "Random and (thorough) exhaustive sequences of read/seek/tell/len over every seekable format are executed on real files with self-identifying frames and checked step by step against a two-integer model; capabilities are probed (NotImplementedError = not offered).",
-         "Out-of-range operations are not judged."),
+         "Out-of-range operations are not judged; strided reads occur only as unjudged disturbances followed by an absolute seek (their results are C02's subject)."),
  "C19": ("runtime fault injection: SIGKILL at enumerated crash points + writer model over all write compositions",
          "fault_enumeration",
          "Every ordered partition of n<=6 frames is written through one handle per streaming format and compared with the one-shot file; ragged writes are injected at every position and must raise leaving exactly the accepted frames; for h5/nc/dcd/xtc a writer child is SIGKILLed at every announced point after write+flush and the file must load with exactly the frames written.",
